@@ -71,7 +71,7 @@ pub fn legs(prop: &str, tier: Tier) -> Vec<Leg> {
         }
         "C04" => {
             if n {
-                vec![leg("box-n", "box", if q { 60_000 } else { 1_500_000 }, &["truncate", "garbage"]), leg("stream-n", "stream", if q { 60_000 } else { 1_500_000 }, &["truncate", "garbage"])]
+                vec![leg("box-n", "box", if q { 60_000 } else { 1_500_000 }, &["truncate", "garbage"]), leg("stream-n", "stream", if q { 60_000 } else { 1_500_000 }, &["truncate", "garbage"]), leg("verifier-n", "verifier", if q { 30_000 } else { 500_000 }, &["truncate", "garbage", "flip", "verdict.accept", "verdict.reject"])]
             } else {
                 vec![leg("box", "box", if q { 300_000 } else { 8_000_000 }, &["truncate", "garbage", "extend", "splice"]), leg("stream", "stream", if q { 300_000 } else { 8_000_000 }, &["truncate", "garbage", "tx.any_tag_byte"]), leg("verifier", "verifier", if q { 150_000 } else { 4_000_000 }, &["truncate", "garbage", "flip", "seg.drop", "seg.dup", "seg.swap", "seg.empty", "char.replace", "num.replace", "verdict.accept", "verdict.reject"])]
             }
